@@ -5,6 +5,8 @@ A unit template (units/<U>.rs) is a Verus source file in which blocks of the for
 
     //@@ fn <id> = <file> :: <path element> :: <path element> ...
     //@@ safety C05 C16            properties served by the implicit obligations of this function
+    //@@ post TAG "text"           the function's postcondition comes from a library trait contract (vstd Ord::cmp + OrdSpecImpl ..):
+    //@@                           a failed postcondition of this function is obligation <id>.TAG
     //@@ ret r                     name the return value `r` (Verus needs a name to write `ensures`)
     //@@ rewrite <name> ...        rewrites (from the fixed table below) this function may need
     //@@ header                    lines inserted between the signature and the body
@@ -125,6 +127,9 @@ REWRITES = {
     "underscore_param2": (r"\(&self, _: ", r"(&self, _unused: ", "a parameter pattern `_` is an unnamed (unused) parameter"),
     "pub_fields": (r"(?m)^(\s+)(?!pub\b)([a-z_]\w*)(\s*:\s)", r"\1pub \2\3", "field visibility is irrelevant in a single file"),
     "pub_struct": (r"(?m)^(struct|enum) ", r"pub \1 ", "item visibility is irrelevant in a single file"),
+    "cmp_dispatch": (r"\.cmp\(", r".vcmp(",
+        "`x.cmp(y)` calls the Ord impl of x's type; here it dispatches (trait VCmp, one impl per type) to a trusted stand-in carrying that type's order as a spec function — Verus rejects the recursion Vec<JsonValue>::cmp -> JsonValue::cmp through the trait impl, so termination of that recursion (bounded by nesting depth) is NOT proved"),
+    "pub_tuple": (r"^(\s*(?:pub )?struct \w+\()(?!pub )", r"\1pub ", "field visibility is irrelevant in a single file"),
     "str_to_string": (r"\b(s|str|word|text)\.to_string\(\)", r"vstr::to_string_of(\1)", "&str::to_string() is a String with the same text"),
     "pub_crate": (r"\bpub\(crate\)\s+", r"pub ", "visibility is irrelevant in a single file"),
     "deref_clone": (
@@ -283,6 +288,7 @@ class FnSpec:
     def __init__(self, fid, file, path):
         self.id, self.file, self.path = fid, file, path
         self.safety, self.ret, self.rewrites = [], None, []
+        self.ext_post = None
         self.header, self.loops, self.before, self.after, self.body_start = [], {}, [], [], []
         self.loop_iter = {}
         self.after_loops = {}
@@ -372,6 +378,13 @@ def parse_template(path):
                         target = None
                     elif d == "assume":
                         fs.assume = True
+                        target = None
+                    elif d.startswith("post "):
+                        # the postcondition comes from a library trait contract (e.g. vstd's Ord::cmp + OrdSpecImpl): name it
+                        mm_ = re.match(r'post\s+(\S+)\s+"(.*)"\s*$', d)
+                        if not mm_:
+                            raise ExtractError("bad //@@ post directive: " + d)
+                        fs.ext_post = (mm_.group(1), mm_.group(2))
                         target = None
                     elif d == "header":
                         target = fs.header
@@ -837,6 +850,7 @@ def _info(fs, src, a, b, applied, assumed, toks_slice):
         "rewrites": [list(x) for x in applied],
         "assumed_here": assumed,
         "safety_props": fs.safety,
+        "ext_post": list(fs.ext_post) if getattr(fs, "ext_post", None) else None,
         "spec_files": [os.path.relpath(p, VERIF) for p in fs.header_files],
     }
 
